@@ -74,9 +74,10 @@ Proof.
   - (* QUIC *) destruct (marshal_tps tps) as [m| |]; cbn [bind] in H; try discriminate.
     guard_tac; try discriminate. inversion H; subst b. autorewrite with blen. lia.
   - (* UtlsPSK *) cbn [state_ok] in Hs.
-    destruct (negb omit && (utls_psk_len has_session cached ids binders =? 0)); [discriminate|].
-    apply read_psk_len in H. rewrite H. unfold utls_psk_len.
-    destruct has_session; cbn [negb]; [destruct cached; lia|lia].
+    destruct (utls_psk_len has_session cached ids binders =? 0) eqn:E0.
+    + destruct (negb omit); [discriminate|]. inversion H. rewrite blen_nil. lia.
+    + apply read_psk_len in H. rewrite H. unfold utls_psk_len in *.
+      destruct has_session; cbn [negb] in *; [destruct cached; lia|lia].
   - (* FakePSK *)
     destruct (negb omit && (psk_ext_len ids binders =? 0)); [discriminate|].
     destruct (negb (forallb (fun b0 => valid_binder_len (blen b0)) binders)); [discriminate|].
@@ -95,7 +96,7 @@ Proof.
     assert (Hl : psk_ext_len ids binders = match cached with Some c => c | None => psk_ext_len ids binders end)
       by (destruct cached; lia).
     rewrite <- Hl in *.
-    destruct (psk_ext_len ids binders =? 0) eqn:E0; [lia|]. rewrite andb_false_r.
+    destruct (psk_ext_len ids binders =? 0) eqn:E0; [lia|].
     now apply read_psk_short.
   - (* FakePSK *) cbn [state_ok] in Hs. rewrite Hs. cbn [negb].
     destruct (psk_ext_len ids binders =? 0) eqn:E0; [lia|]. rewrite andb_false_r.
@@ -118,10 +119,9 @@ Proof.
   - (* QUIC *) destruct (marshal_tps tps) as [m| |]; cbn [bind]; try reflexivity.
     guard_tac; solve [reflexivity | lia].
   - (* UtlsPSK *) cbn [state_ok] in Hs.
-    destruct (negb omit && (utls_psk_len has_session cached ids binders =? 0)); [reflexivity|].
-    unfold utls_psk_len in *. destruct has_session; cbn [negb] in *.
-    + apply read_psk_enough; destruct cached; lia.
-    + apply read_psk_enough; lia.
+    destruct (utls_psk_len has_session cached ids binders =? 0) eqn:E0; [reflexivity|].
+    unfold utls_psk_len in *. destruct has_session; cbn [negb] in *; [|lia].
+    apply read_psk_enough; destruct cached; lia.
   - (* FakePSK *)
     destruct (negb omit && (psk_ext_len ids binders =? 0)); [reflexivity|].
     destruct (negb (forallb (fun b0 => valid_binder_len (blen b0)) binders)); [reflexivity|].
@@ -184,13 +184,11 @@ Proof.
   - (* versions *) apply andb_true_iff in Hf. destruct Hf as [_ Hf].
     rewrite N.ltb_irrefl. destruct (255 <? 2 * blen versions) eqn:E; [lia|]. layout_tac.
   - (* UtlsPSK *) rewrite !andb_true_iff in Hf. destruct Hf as [_ Hom].
-    assert (Hlen : utls_psk_len has_session cached ids binders = psk_ext_len ids binders).
-    { unfold utls_psk_len. destruct has_session; cbn [negb]; [destruct cached; lia|lia]. }
-    rewrite Hlen in *.
-    destruct (psk_ext_len ids binders =? 0) eqn:E0.
-    + destruct omit; cbn in Hom; [|discriminate]. cbn [negb andb].
-      split; [|lia]. unfold read_psk. now rewrite E0.
-    + rewrite andb_false_r. apply read_psk_layout. lia.
+    destruct (utls_psk_len has_session cached ids binders =? 0) eqn:E0.
+    + destruct omit; cbn in Hom; [|discriminate]. cbn [negb]. split; [reflexivity|lia].
+    + assert (Hlen : utls_psk_len has_session cached ids binders = psk_ext_len ids binders).
+      { unfold utls_psk_len in *. destruct has_session; cbn [negb] in *; [destruct cached; lia|lia]. }
+      rewrite Hlen in *. apply read_psk_layout. lia.
   - (* FakePSK *) rewrite !andb_true_iff in Hf. destruct Hf as [_ Hom]. rewrite Hs. cbn [negb].
     destruct (psk_ext_len ids binders =? 0) eqn:E0.
     + destruct omit; cbn in Hom; [|discriminate]. cbn [negb andb].
@@ -249,7 +247,7 @@ Proof.
 Qed.
 
 Lemma sni_names_ok host fuel : empty host = false -> blen host < 65536 -> (last host 0 =? 46) = false ->
-  sni_names (S fuel) ([0] ++ enc_u16lp host) [] = Ok tt.
+  sni_names (S fuel) (0 :: enc_u16lp host) [] = Ok tt.
 Proof.
   intros Hne Hlen Hdot. cbn [app sni_names read_u8].
   rewrite read_enc_u16lp_nil by exact Hlen. rewrite Hne.
@@ -318,22 +316,22 @@ Lemma fake_psk_write_ok ids bs :
   psk_ids_len ids < 65536 -> protos_len bs < 65536 ->
   fake_psk_write (psk_body ids bs) = Ok (EFakePreSharedKey false ids bs).
 Proof.
-  intros Ha Hb Hi Hp. unfold fake_psk_write, psk_body.
-  remember (enc_u16lp (flat_map (fun i : psk_identity => enc_u16lp (fst i) ++ enc_u32 (snd i)) ids)
-            ++ enc_u16lp (flat_map enc_u8lp bs)) as X eqn:HX.
-  assert (HB : blen X = 2 + psk_ids_len ids + (2 + protos_len bs)).
-  { subst X. now rewrite blen_app, !blen_enc_u16lp, blen_psk_ids_spec, blen_protos_spec. }
-  pose proof (count_le_psk_ids_len ids) as Hc1. pose proof (count_le_protos_len bs) as Hc2.
-  unfold blen in HB.
-  assert (Hlen1 : (length ids <= S (length X))%nat) by lia.
-  assert (Hlen2 : (length bs <= S (length X))%nat) by lia.
-  clear HB Hc1 Hc2. rewrite HX at 1. clear HX.
-  set (fuel := S (length X)) in *. clearbody fuel.
+  intros Ha Hb Hi Hp. pose proof Ha as Ha'. pose proof Hb as Hb'. unfold fake_psk_write, psk_body.
+  assert (HL : forall X : bytes, blen X = 2 + psk_ids_len ids + (2 + protos_len bs) ->
+               (length ids <= S (length X))%nat /\ (length bs <= S (length X))%nat).
+  { intros X HB. unfold blen in HB.
+    pose proof (count_le_psk_ids_len ids) as Hc1. pose proof (count_le_protos_len bs) as Hc2.
+    clear Ha Hb Ha' Hb'. unfold psk_identity in *. split; lia. }
+  match goal with |- context [psk_ids_parse (S (length ?X))] =>
+    destruct (HL X) as [Hlen1 Hlen2];
+    [ now rewrite blen_app, !blen_enc_u16lp, blen_psk_ids_spec, blen_protos_spec | ];
+    set (fuel := S (length X)) in *; clearbody fuel
+  end. clear HL.
   unfold enc_u16lp at 1. rewrite <- !app_assoc.
   rewrite read_enc_u16 by (rewrite blen_psk_ids_spec; lia). rewrite blen_psk_ids_spec.
-  rewrite psk_ids_parse_ok by assumption.
+  rewrite (psk_ids_parse_ok ids _ fuel Ha' Hi Hlen1).
   unfold enc_u16lp at 1. rewrite read_enc_u16 by (rewrite blen_protos_spec; lia). rewrite blen_protos_spec.
-  rewrite psk_binders_parse_ok by assumption. reflexivity.
+  rewrite (psk_binders_parse_ok bs fuel Hb' Hp Hlen2). reflexivity.
 Qed.
 
 Lemma ech_write_ok kdf aead cfg enc p :
@@ -348,9 +346,22 @@ Proof.
   rewrite Hkok, Haok. cbn [negb]. cbn [app read_u8].
   rewrite read_enc_u16lp by exact Hel. rewrite read_enc_u16lp_nil by exact Hpu.
   apply empty_false_iff in Hne. destruct (blen enc =? 0) eqn:E0; [lia|].
-  unfold ECH_TAG_LEN in *.
-  replace ((blen p + 65536 - 16) mod 65536 + 16) with (blen p) by lia.
+  unfold ECH_TAG_LEN in *. destruct (blen p <? 16) eqn:E1; [lia|].
+  replace ((blen p - 16) mod 65536 + 16) with (blen p) by lia.
   unfold ech_mask, blen. now rewrite !Nat2N.id.
+Qed.
+
+Lemma ech_write_short_payload kdf aead cfg enc p :
+  kdf < 65536 -> aead < 65536 -> ech_kdf_ok kdf = true -> ech_aead_ok aead = true ->
+  blen enc < 65536 -> blen p < ECH_TAG_LEN ->
+  ech_write ([0] ++ enc_u16 kdf ++ enc_u16 aead ++ [cfg] ++ enc_u16lp enc ++ enc_u16lp p) = Err E_ECH_PAYLOAD_SHORT.
+Proof.
+  intros Hk Ha Hkok Haok Hel Hpl. unfold ech_write.
+  cbn [app read_u8]. replace (negb (0 =? 0)) with false by reflexivity. cbv iota.
+  rewrite read_enc_u16 by exact Hk. cbn [obind]. rewrite read_enc_u16 by exact Ha. cbn [obind].
+  rewrite Hkok, Haok. cbn [negb]. cbn [app read_u8].
+  rewrite read_enc_u16lp by exact Hel. unfold ECH_TAG_LEN in *. rewrite read_enc_u16lp_nil by lia.
+  destruct (blen p <? 16) eqn:E1; [reflexivity|lia].
 Qed.
 
 Ltac step_id :=
@@ -366,12 +377,193 @@ Proof. intros Hv Hc. destruct (N.eqb_spec v c); [subst; congruence|reflexivity].
 Lemma rt_parts e : rt_ok e = true -> wf_ext e = true /\ ext_absent e = false.
 Proof. unfold rt_ok. rewrite !andb_true_iff, negb_true_iff. tauto. Qed.
 
+(* dispatch of ExtensionFromID: closed comparisons, by computation *)
+Lemma ew_sni b : ext_write ID_SNI b =
+  match read_u16lp b with
+  | None => Err E_PARSE
+  | Some (names, _) => if empty names then Err E_PARSE else do _ <- sni_names (length names) names []; Ok (ESNI [])
+  end.
+Proof. reflexivity. Qed.
+Lemma ew_curves b : ext_write ID_CURVES b = u16_list_write E_PARSE ESupportedCurves ungrease b.
+Proof. reflexivity. Qed.
+Lemma ew_points b : ext_write ID_POINTS b =
+  match read_u8lp b with None => Err E_PARSE | Some (v, _) => if empty v then Err E_PARSE else Ok (ESupportedPoints v) end.
+Proof. reflexivity. Qed.
+Lemma ew_sigalgs b : ext_write ID_SIGALGS b = u16_list_write E_PARSE ESignatureAlgorithms same b.
+Proof. reflexivity. Qed.
+Lemma ew_sigalgs_cert b : ext_write ID_SIGALGS_CERT b = u16_list_write E_PARSE ESignatureAlgorithmsCert same b.
+Proof. reflexivity. Qed.
+Lemma ew_dc b : ext_write ID_DELEGATED_CREDENTIALS b = u16_list_write E_PARSE EFakeDelegatedCredentials same b.
+Proof. reflexivity. Qed.
+Lemma ew_alpn b : ext_write ID_ALPN b = protos_write EALPN b. Proof. reflexivity. Qed.
+Lemma ew_alps b : ext_write ID_ALPS b = protos_write EApplicationSettings b. Proof. reflexivity. Qed.
+Lemma ew_alps_new b : ext_write ID_ALPS_NEW b = protos_write EApplicationSettingsNew b. Proof. reflexivity. Qed.
+Lemma ew_compress b : ext_write ID_COMPRESS_CERT b =
+  match read_u8lp b with
+  | None => Err E_PARSE
+  | Some (v, _) => match read_u16s v with None => Err E_PARSE | Some l => Ok (ECompressCert l) end
+  end.
+Proof. reflexivity. Qed.
+Lemma ew_key_share b : ext_write ID_KEY_SHARE b =
+  match read_u16lp b with
+  | None => Err E_PARSE
+  | Some (v, _) => match key_shares_parse (length v) v with None => Err E_PARSE | Some l => Ok (EKeyShare l) end
+  end.
+Proof. reflexivity. Qed.
+Lemma ew_psk_modes b : ext_write ID_PSK_MODES b =
+  match read_u8lp b with None => Err E_PARSE | Some (v, _) => Ok (EPSKKeyExchangeModes v) end.
+Proof. reflexivity. Qed.
+Lemma ew_versions b : ext_write ID_VERSIONS b =
+  match read_u8lp b with
+  | None => Err E_PARSE
+  | Some (v, _) =>
+    if empty v then Err E_PARSE else
+    match read_u16s v with None => Err E_PARSE | Some l => Ok (ESupportedVersions (map ungrease l)) end
+  end.
+Proof. reflexivity. Qed.
+Lemma ew_rsl b : ext_write ID_RECORD_SIZE_LIMIT b =
+  match read_u16 b with None => Err E_PARSE | Some (l, _) => Ok (EFakeRecordSizeLimit l) end.
+Proof. reflexivity. Qed.
+Lemma ew_tb b : ext_write ID_TOKEN_BINDING b =
+  match obind (read_u8 b) (fun '(ma, s1) => obind (read_u8 s1) (fun '(mi, s2) =>
+        obind (read_u8lp s2) (fun '(p, _) => Some (ma, mi, p)))) with
+  | None => Err E_PARSE
+  | Some (ma, mi, p) => Ok (EFakeTokenBinding ma mi p)
+  end.
+Proof. reflexivity. Qed.
+Lemma ew_psk b : ext_write ID_PSK b = fake_psk_write b. Proof. reflexivity. Qed.
+Lemma ew_ech b : ext_write ID_ECH b = ech_write b. Proof. reflexivity. Qed.
+
+Lemma map_same l : map same l = l.
+Proof. induction l as [|x l IH]; [reflexivity|]. cbn [map]. now rewrite IH. Qed.
+
+Lemma ew_grease v b : is_grease v = true -> ext_write v b = Ok (EGREASE GREASE_PLACEHOLDER b).
+Proof.
+  intros Hg. unfold ext_write.
+  rewrite !(is_grease_closed v _ Hg) by reflexivity. now rewrite Hg.
+Qed.
+
+Lemma negb_empty (l : bytes) : negb (empty l) = true -> empty l = false.
+Proof. now rewrite negb_true_iff. Qed.
+
 Lemma write_read e : rt_ok e = true -> ext_write (ext_id e) (ext_body e) = Ok (ext_norm e).
 Proof.
   intros Hrt. destruct (rt_parts e Hrt) as (Hwf & Hab). destruct (wf_parts e Hwf) as (Hs & Hf & Hl).
   unfold rt_ok in Hrt. rewrite Hwf, Hab in Hrt. cbn [negb andb] in Hrt.
   destruct e; try discriminate;
   cbn [ext_id ext_body ext_norm ext_len fields_ok state_ok ext_absent] in *;
-  try (unfold ext_write; repeat step_id; reflexivity).
-  all: idtac.
-Abort.
+  try reflexivity.
+  - (* SNI *) rewrite ew_sni. rewrite Hab in Hl. apply negb_true_iff in Hrt.
+    rewrite read_enc_u16lp_nil by (autorewrite with blen; lia).
+    cbn [app empty length]. rewrite sni_names_ok; [reflexivity| |lia|exact Hrt].
+    apply empty_false_iff. lia.
+  - (* curves *) rewrite ew_curves. apply u16_list_write_ok; [exact Hf|now apply negb_empty|lia].
+  - (* points *) rewrite ew_points. rewrite read_enc_u8lp_nil by lia. now rewrite (negb_empty _ Hrt).
+  - (* sigalgs *) rewrite ew_sigalgs, u16_list_write_ok; [now rewrite map_same|exact Hf|now apply negb_empty|lia].
+  - (* sigalgs cert *) rewrite ew_sigalgs_cert, u16_list_write_ok; [now rewrite map_same|exact Hf|now apply negb_empty|lia].
+  - (* ALPN *) rewrite ew_alpn. apply andb_true_iff in Hrt. destruct Hrt as [Hnil Hne].
+    apply protos_write_ok; [exact Hf|exact Hne|destruct protos; [discriminate|congruence]|lia].
+  - (* ALPS *) rewrite ew_alps. apply andb_true_iff in Hrt. destruct Hrt as [Hnil Hne].
+    apply protos_write_ok; [exact Hf|exact Hne|destruct protos; [discriminate|congruence]|lia].
+  - (* ALPS new *) rewrite ew_alps_new. apply andb_true_iff in Hrt. destruct Hrt as [Hnil Hne].
+    apply protos_write_ok; [exact Hf|exact Hne|destruct protos; [discriminate|congruence]|lia].
+  - (* GREASE *) now apply ew_grease.
+  - (* compress cert *) rewrite ew_compress. apply andb_true_iff in Hf. destruct Hf as [Hall Hn].
+    rewrite read_enc_u8lp_nil by (rewrite blen_flat_u16; lia). now rewrite read_u16s_flat.
+  - (* key share *) rewrite ew_key_share.
+    rewrite read_enc_u16lp_nil by (rewrite <- key_shares_bytes_spec, blen_key_shares_bytes; lia).
+    rewrite key_shares_parse_ok; [reflexivity|exact Hf|exact Hrt|lia|lia].
+  - (* PSK modes *) rewrite ew_psk_modes. now rewrite read_enc_u8lp_nil by lia.
+  - (* versions *) rewrite ew_versions. apply andb_true_iff in Hf. destruct Hf as [Hall Hn].
+    rewrite read_enc_u8lp_nil by (rewrite blen_flat_u16; lia).
+    rewrite flat_u16_nonempty by (now apply negb_empty). now rewrite read_u16s_flat.
+  - (* channel id *) destruct old; reflexivity.
+  - (* record size limit *) rewrite ew_rsl. rewrite <- (app_nil_r (enc_u16 limit)). now rewrite read_enc_u16 by lia.
+  - (* token binding *) rewrite ew_tb. cbn [app read_u8 obind]. now rewrite read_enc_u8lp_nil by lia.
+  - (* delegated credentials *) rewrite ew_dc, u16_list_write_ok; [now rewrite map_same|exact Hf|now apply negb_empty|lia].
+  - (* fake PSK *) rewrite ew_psk. rewrite !andb_true_iff in Hf. destruct Hf as [[Ha Hb] _].
+    apply N.eqb_neq in Hab. destruct (psk_ext_len_pos ids binders) as [Hp|Hp]; [lia|].
+    rewrite psk_binders_len_eq in Hp. apply fake_psk_write_ok; [exact Ha|exact Hb|lia|lia].
+  - (* GREASE ECH *) rewrite ew_ech.
+    apply andb_true_iff in Hrt. destruct Hrt as [Hrt Hp].
+    apply andb_true_iff in Hrt. destruct Hrt as [Hrt Hne].
+    apply andb_true_iff in Hrt. destruct Hrt as [Hk Ha].
+    apply andb_true_iff in Hf. destruct Hf as [Hku Hau].
+    apply ech_write_ok; try assumption; try lia. now apply negb_empty.
+Qed.
+
+Lemma ungrease_idem v : ungrease (ungrease v) = ungrease v.
+Proof. unfold ungrease. destruct (is_grease v) eqn:E; [reflexivity|]. now rewrite E. Qed.
+
+Lemma norm_share_idem k : norm_share (norm_share k) = norm_share k.
+Proof.
+  unfold norm_share. cbn [fst snd]. rewrite ungrease_idem.
+  destruct (ungrease (fst k) =? GREASE_PLACEHOLDER); reflexivity.
+Qed.
+
+Lemma norm_idem e : ext_norm (ext_norm e) = ext_norm e.
+Proof.
+  destruct e; cbn [ext_norm ech_mask]; try reflexivity.
+  - f_equal. rewrite map_map. apply map_ext. intros; apply ungrease_idem.
+  - f_equal. rewrite map_map. apply map_ext. intros; apply norm_share_idem.
+  - f_equal. rewrite map_map. apply map_ext. intros; apply ungrease_idem.
+  - now rewrite !length_zbytes.
+Qed.
+
+(* the real-PSK choice of ReadTLSExtensions ignores the body altogether *)
+Lemma write_read_realpsk s c o ids bs b :
+  ext_write_realpsk ID_PSK b = Ok (ext_norm (EUtlsPreSharedKey s c o ids bs)).
+Proof. reflexivity. Qed.
+
+(* ---- header parses back: type, then a uint16-prefixed body, nothing after it ---- *)
+Lemma ext_id_u16 e : fields_ok e = true -> ext_id e < 65536.
+Proof.
+  destruct e; cbn [ext_id fields_ok]; intros H; try (vm_compute; reflexivity); try lia.
+  destruct old; vm_compute; reflexivity.
+Qed.
+
+Lemma header_parses e : wf_ext e = true -> ext_absent e = false ->
+  exists b, ext_read e (ext_len e) = Ok b
+    /\ read_u16 b = Some (ext_id e, enc_u16lp (ext_body e))
+    /\ read_u16lp (enc_u16lp (ext_body e)) = Some (ext_body e, [])
+    /\ blen (ext_body e) + 4 = ext_len e.
+Proof.
+  intros Hwf Hab. pose proof (read_layout e Hwf) as HL. rewrite Hab in HL. destruct HL as [HR HB].
+  destruct (wf_parts e Hwf) as (_ & Hf & Hl).
+  exists (enc_u16 (ext_id e) ++ enc_u16lp (ext_body e)). repeat split; try assumption.
+  - apply read_enc_u16. now apply ext_id_u16.
+  - apply read_enc_u16lp_nil. lia.
+Qed.
+
+Lemma write_read_full e : rt_ok e = true ->
+  exists body, ext_read e (ext_len e) = Ok (enc_u16 (ext_id e) ++ enc_u16lp body)
+    /\ blen body < 65536 /\ ext_write (ext_id e) body = Ok (ext_norm e).
+Proof.
+  intros Hrt. destruct (rt_parts e Hrt) as (Hwf & Hab).
+  pose proof (read_layout e Hwf) as HL. rewrite Hab in HL. destruct HL as [HR HB].
+  destruct (wf_parts e Hwf) as (_ & _ & Hl).
+  exists (ext_body e). repeat split; [exact HR|lia|now apply write_read].
+Qed.
+
+Lemma reencode_stable e : rt_ok (ext_norm e) = true ->
+  ext_write (ext_id (ext_norm e)) (ext_body (ext_norm e)) = Ok (ext_norm e).
+Proof. intros H. rewrite <- (norm_idem e) at 3. now apply write_read. Qed.
+
+(* ---- the "too many" branches, beyond the one-byte prefixes ---- *)
+Lemma too_many_compress a n : 255 < 2 * blen a -> ext_len (ECompressCert a) <= n ->
+  ext_read (ECompressCert a) n = Err E_MANY_COMPRESS.
+Proof. intros H Hn. cbn [ext_read ext_len] in *. guard_tac; solve [reflexivity|lia]. Qed.
+Lemma too_many_versions v n : 255 < 2 * blen v -> ext_len (ESupportedVersions v) <= n ->
+  ext_read (ESupportedVersions v) n = Err E_MANY_VERSIONS.
+Proof. intros H Hn. cbn [ext_read ext_len] in *. guard_tac; solve [reflexivity|lia]. Qed.
+Lemma too_many_pskmodes m n : 255 < blen m -> ext_len (EPSKKeyExchangeModes m) <= n ->
+  ext_read (EPSKKeyExchangeModes m) n = Err E_MANY_PSKMODES.
+Proof. intros H Hn. cbn [ext_read ext_len] in *. guard_tac; solve [reflexivity|lia]. Qed.
+
+(* Write never panics and Read panics only through TransportParameters.Marshal *)
+Lemma read_no_panic e n : (forall tps, e <> EQUICTransportParameters tps) -> is_panic (ext_read e n) = false.
+Proof.
+  intros Hq. destruct e; cbn [ext_read]; unfold guarded, read_psk;
+  repeat match goal with |- context [if ?c then _ else _] => destruct c end; try reflexivity.
+  exfalso. now apply (Hq tps).
+Qed.
